@@ -1,6 +1,7 @@
 // C19 driver: invariance under renaming / re-ordering and the laws of language inclusion on automata read from files
 // (the large shipped automata, where no brute-force reference exists: expected values come from theorems).
 // case:   laws <fileA> <fileB> <seed> <limit_ms>     or     laws <T A> <T B> <seed> <limit_ms>   (generated automata)
+//         inv <T A> <T B> <seed> <limit_ms> <k>      output: INV=<8>:<8>:...  (the pair and k twins, 8 selections each) N=..
 // output: AB=<8> AA=<8> TW=<8> E=<eA><eA'> LAWS=<26> SZ=<redA>:<redA'>:<trimA>:<trimA'> SIMD=<ok|diff:q,r|skip> SIMU=<...> N=<statesA>:<rulesA>:<statesB>:<rulesB>
 //   verdict characters: 0 1 T(time limit) E(exception) N(not implemented)
 //   selections in order: up_nosim up_sim down_nonrec_nosim down_nonrec_sim down_rec_nosim down_rec_opt_nosim down_rec_sim down_rec_opt_sim
@@ -65,6 +66,26 @@ template <class F> static char timed(F f) {
 	return c;
 }
 
+// the 8 selections in one forked child under the time limit; 8 characters ('T' x 8 when the limit is exceeded)
+template <class F> static std::string timed8(F f) {
+	int fd[2]; if (pipe(fd) != 0) return "EEEEEEEE";
+	std::cout.flush();
+	pid_t pid = fork();
+	if (pid < 0) return "EEEEEEEE";
+	if (pid == 0) {
+		close(fd[0]); std::string out;
+		for (int s = 0; s < 8; ++s) { char c = 'E'; try { c = f(s) ? '1' : '0'; } catch (const VATA::NotImplementedException&) { c = 'N'; } catch (...) { c = 'E'; } out += c; }
+		ssize_t w = write(fd[1], out.data(), out.size()); (void)w; _exit(0);
+	}
+	close(fd[1]);
+	struct pollfd p; p.fd = fd[0]; p.events = POLLIN;
+	std::string res = "TTTTTTTT";
+	if (poll(&p, 1, LIMIT_MS) > 0) { char buf[16]; ssize_t k = read(fd[0], buf, 8); res = k == 8 ? std::string(buf, 8) : "EEEEEEEE"; }
+	else kill(pid, SIGKILL);
+	close(fd[0]); int st; waitpid(pid, &st, 0);
+	return res;
+}
+
 struct Flat { std::vector<St> finals; std::vector<Rule> rules; std::set<St> states; };
 static Flat flat(const Aut& a) {
 	Flat f; for (auto q : a.GetFinalStates()) { f.finals.push_back(q); f.states.insert(q); }
@@ -121,7 +142,8 @@ int main() {
 	std::string line;
 	while (std::getline(std::cin, line)) {
 		guarded([&]() {
-			Toks t(line); t.expect("laws");
+			Toks t(line); std::string kind = t.word();
+			if (kind != "laws" && kind != "inv") throw std::runtime_error("driver: unknown case kind");
 			Aut A, B;
 			if (t.v[t.i] == "T") {     // generated automata, inline: symbols s<code>:<rank> registered in a fresh alphabet so that code = registration index
 				TA a = readTA(t); TA b = readTA(t);
@@ -143,6 +165,25 @@ int main() {
 			std::mt19937 rng((unsigned)seed);
 			Flat FA = flat(A), FB = flat(B);
 			std::ostringstream os;
+			if (kind == "inv") {
+				// inv <T A> <T B> <seed> <limit> <k>: the 8 selections on the pair and on k twins (states renamed by random bijections, rules and
+				// final states inserted in shuffled order, symbols registered in shuffled order in a fresh alphabet)
+				U k = t.num();
+				os << "INV=" << timed8([&](int s) { return inclSel(A, B, s); });
+				std::set<U> syms; for (auto& r : FA.rules) syms.insert(r.sym); for (auto& r : FB.rules) syms.insert(r.sym);
+				for (U i = 0; i < k; ++i) {
+					std::vector<U> order(syms.begin(), syms.end()); std::shuffle(order.begin(), order.end(), rng);
+					std::shared_ptr<Aut::OnTheFlyAlphabet> otf(new Aut::OnTheFlyAlphabet());
+					std::map<U, U> symmap;
+					{ auto bt = A.GetAlphabet()->GetSymbolBackTransl(); auto ft = otf->GetSymbolTransl(); for (U sy : order) symmap[sy] = (*ft)((*bt)(sy)); }
+					Aut::AlphabetType alpha = otf;
+					std::map<St, St> hA, hB;
+					Aut A2 = twin(FA, rng, symmap, &alpha, hA), B2 = twin(FB, rng, symmap, &alpha, hB);
+					os << ':' << timed8([&](int s) { return inclSel(A2, B2, s); });
+				}
+				os << " N=" << FA.states.size() << ':' << FA.rules.size() << ':' << FB.states.size() << ':' << FB.rules.size();
+				return os.str();
+			}
 			os << "AB="; for (int s = 0; s < 8; ++s) os << timed([&]() { return inclSel(A, B, s); });
 			os << " AA="; for (int s = 0; s < 8; ++s) os << timed([&]() { return inclSel(A, A, s); });
 			// twins under a fresh alphabet with shuffled symbol registration
